@@ -145,6 +145,11 @@ func TestVerifOrder(t *testing.T) {
 		}
 	}
 	snaps = append(snaps, vCorpus()...)
+	if n > 0 { // every boundary / defect of the non-pool part of config.For, once per run
+		for k := 0; k < vNonPoolVariants; k++ {
+			snaps = append(snaps, vGenNonPool(r, k))
+		}
+	}
 	for i := 0; i < n; i++ {
 		o := vGenOpts{MinObj: 3, MaxObj: 6, Wild: i%10 >= 7}
 		if i%10 == 3 {
